@@ -148,3 +148,46 @@ Definition with_bytes (c : cfg) : cfg :=
 Definition bytes_alloc (t : ty) (bs : list byte) : bool :=
   (alloc_budget bs <? 2 * decode_cost current t bs) &&
   (decode_cost (with_bytes current) t bs <=? alloc_budget bs).
+
+(* ---- second round (auditor): what BlockResponseMessage.Decode RETURNS, not only whether it
+   succeeds.  protobufToBlockData per block: Hash = common.BytesToHash(pbd.Hash); Header = the
+   decoded header when header bytes are present; Body = the decoded extrinsics when at least one
+   body entry is present; Receipt / MessageQueue = the bytes when non-empty (an empty protobuf
+   bytes field arrives as nil); Justification = the bytes when non-empty, the empty byte string
+   when empty and is_empty_justification is set, absent otherwise. *)
+Definition pb_opt (b : list byte) : option (list byte) :=
+  match b with [] => None | _ => Some b end.
+Definition pb_just (b : list byte) (flag : bool) : option (list byte) :=
+  match b with [] => if flag then Some [] else None | _ => Some b end.
+
+Definition block_view (c : cfg) (hdr : list byte) (entries : list (list byte))
+  : outcome (option value * option value) :=
+  let h := match hdr with
+           | [] => Ok None
+           | _ => match decode_res c s_header hdr with
+                  | Ok (v, _) => Ok (Some v) | Err e => Err e | Panic => Panic | OutOfFuel => OutOfFuel
+                  end
+           end in
+  match h with
+  | Ok hv =>
+      match entries with
+      | [] => Ok (hv, None)
+      | _ => match fst (dec_body c (body_bytes entries)) with
+             | Ok (v, _) => Ok (hv, Some v) | Err e => Err e | Panic => Panic | OutOfFuel => OutOfFuel
+             end
+      end
+  | Err e => Err e | Panic => Panic | OutOfFuel => OutOfFuel
+  end.
+
+Fixpoint bresp_view (c : cfg) (blocks : list (list byte * list (list byte)))
+  : outcome (list (option value * option value)) :=
+  match blocks with
+  | [] => Ok []
+  | (hdr, entries) :: r =>
+      match block_view c hdr entries with
+      | Ok x => match bresp_view c r with
+                | Ok l => Ok (x :: l) | Err e => Err e | Panic => Panic | OutOfFuel => OutOfFuel
+                end
+      | Err e => Err e | Panic => Panic | OutOfFuel => OutOfFuel
+      end
+  end.
